@@ -32,6 +32,8 @@ def jobs(tier, ws, prop='C06'):
                           bound='%d processes, rank %d; block of at most 4096 bytes (one round); offsets symbolic' % (np_, rk)))
     if prop == 'C06':
         import C03, C08
-        js.append(C08.close_files_job('C06'))   # abort of a new file removes it, after both handles are closed
+        js.append(C08.close_files_job('C06'))
+        import C14
+        js += [j for j in C14.driver_mode_jobs('C06') if 'abort' in j.name]   # abort discards a redefinition without writing, removes a new file   # abort of a new file removes it, after both handles are closed
         js += [j for j in C03.jobs(tier, ws, prop='C06') if 'ncmpio__enddef' in j.name]   # which data movement enddef decides on (records re-strided whenever the record size grew)
     return js
